@@ -545,7 +545,10 @@ def metamorphic(c, got, by_key):
     fn = c["fn"]
     if c.get("malformed"):
         return errs
-    if fn in ("snakecase", "kebabcase") and got[0] == "str":
+    if fn in ("snakecase", "kebabcase") and got[0] == "str" and re.fullmatch(rb"[A-Za-z0-9_\- ]*", c["args"][0][1]):
+        # only on the vocabulary of the documented examples (ASCII letters, digits, '_', '-', ' '): for punctuation
+        # (xstrings counts '_' after punctuation as punctuation), non-ASCII and invalid UTF-8 the xstrings
+        # documentation promises nothing, and only "returns a string" is checked
         other = by_key.get(("kebabcase" if fn == "snakecase" else "snakecase", c["args"][0][1]))
         if other and other[0] == "str":
             sn, kb = (got[1], other[1]) if fn == "snakecase" else (other[1], got[1])
@@ -554,7 +557,7 @@ def metamorphic(c, got, by_key):
         if any(65 <= ch <= 90 for ch in got[1]):
             errs.append("%s output contains an ASCII upper-case letter: %r" % (fn, got[1]))
         bad = b" -" if fn == "snakecase" else b" _"
-        if all(ch < 128 for ch in c["args"][0][1]) and any(ch in bad for ch in got[1]):
+        if any(ch in bad for ch in got[1]):
             errs.append("%s output contains a foreign connector: %r" % (fn, got[1]))
     if fn in ("snakecase", "kebabcase", "camelcase") and got[0] != "str":
         errs.append("%s did not return a string: %r" % (fn, got))
@@ -691,7 +694,7 @@ def check(ctx, only=None):
         ctx.write_evidence(gate, 0, 0, "build failed", [])
         return
     known = {k["id"]: k for k in load_known("C16")}
-    per = 400 if ctx.thorough() else 60
+    per = 2500 if ctx.thorough() else 200
     notes = []
     if only is not None:
         cases = only
